@@ -319,6 +319,33 @@ def main():
                          "neutron_scattering of its oxide is %r (an atom that is not in the table must report no SLD)"
                          % (tname, sym, A, has, bc, res)))
                 break
+    # first touch through an isotope: fresh interpreters whose very first neutron access is an isotope with a row of
+    # its own; what it serves is its row, not its element's
+    try:
+        import subprocess, os
+        rows, _, _ = third_reader()
+        probes = [(1, 2), (26, 56), (28, 62), (5, 10), (64, 157)]
+        code = ("import json, sys, periodictable as pt\n"
+                "z, a = int(sys.argv[1]), int(sys.argv[2])\n"
+                "n = pt.elements[z][a].neutron\n"
+                "print(json.dumps([getattr(n, 'b_c', None), getattr(n, 'absorption', None)]))\n")
+        for z, a in probes:
+            if (z, a) not in rows:
+                continue
+            p = subprocess.run([sys.executable, "-c", code, str(z), str(a)], stdout=subprocess.PIPE, stderr=subprocess.PIPE, text=True,
+                               timeout=300, cwd="/", env=dict(os.environ))
+            got = json.loads(p.stdout.strip().split("\n")[-1]) if p.returncode == 0 and p.stdout.strip() else ["raises", p.stderr[-200:]]
+            want = [rows[(z, a)]["b_c"], rows[(z, a)]["absorption"]]
+            if got != want:
+                sym = rows[(z, a)]["symbol"]
+                out["direct_fails"].append(dict(
+                    signature="C07:first-touch-through-isotope", table="public", z=z, a=a, atom="%s[%d]" % (sym, a),
+                    what="in a fresh interpreter whose first neutron access is elements.%s[%d].neutron: b_c, absorption = %r, row %s of "
+                         "the table says %r" % (sym, a, got, rows[(z, a)]["name"], want)))
+                break
+    except Exception as e:  # noqa
+        out["direct_fails"].append(dict(signature="C07:first-touch-through-isotope:raises", table="public", z=None, a=None, atom=None,
+                                        what="the first-touch probes raised %s: %s" % (type(e).__name__, e)))
     json.dump(out, sys.stdout)
 
 
